@@ -323,6 +323,8 @@ def life_cases(rng, tier, with_borrowed=True):
              "106 | 10 7 1 ; 16 0", "106 | 10 7 0 ; 17 0 ; 1 1", "106 | 0 4 ; 18 0 ; 18 0 ; 7 1 ; 7 0 ; 7 2", "106 | 0 4 ; 20 0 ; 11 1 ; 6 2 ; 7 0 ; 16 3", "106 | 0 4 ; 20 0 ; 20 0 ; 17 1 ; 7 0", "106 | 10 7 1 ; 19 0 ; 11 0 ; 19 2 ; 7 1", "106 | 10 7 1 ; 11 0 ; 6 1 ; 16 1 ; 17 2", "106 | 10 7 1 ; 11 0 ; 12 1 ; 16 2"]
     if with_borrowed:
         cases.append("106 | 9 3 ; 3 0 ; 3 0 ; 3 0")
+    # the same fixed histories with a ZERO-SIZED user context whose Clone/Drop keep the count ('106 1 | ..')
+    cases += [c.replace("106 |", "106 1 |", 1) for c in cases]
     n = 300 if tier == "quick" else 6000
     for _ in range(n):
         ops, kinds = [], []
@@ -371,8 +373,8 @@ def life_cases(rng, tier, with_borrowed=True):
                 kinds[h] = "D"
                 if k == "G1": kinds.append("GC")
             elif c == 12: kinds[h] = "D"; kinds.append("G1")
-        cases.append("106 | " + " ; ".join(" ".join(map(str, o)) for o in ops))
-    return cases, {"lifecycle_histories": len(cases)}
+        cases.append(("106 1 | " if rng.chance(1, 3) else "106 | ") + " ; ".join(" ".join(map(str, o)) for o in ops))
+    return cases, {"lifecycle_histories": len(cases), "of_which_zero_sized_user_context": sum(1 for c in cases if c.startswith("106 1 "))}
 
 
 def box_cases(rng, tier):
